@@ -45,6 +45,11 @@ def _worker_init(scratch_root):
     os.environ.setdefault("PYTHONHASHSEED", "0")
     d = tempfile.mkdtemp(prefix="w%d_" % os.getpid(), dir=scratch_root)
     os.chdir(d)
+    if not os.environ.get("VERIF_DEBUG"):
+        # TensorFlow's C++ runtime chatter; Python tracebacks travel in results
+        dn = os.open(os.devnull, os.O_WRONLY)
+        os.dup2(dn, 2)
+        os.close(dn)
     sys.setrecursionlimit(max(sys.getrecursionlimit(), 3000))
 
 
